@@ -43,6 +43,24 @@ fn c13_bytewise_separator_in_range_4() {
 	separator_in_range::<4>();
 }
 
+#[kani::proof]
+#[kani::unwind(9)]
+fn c13_bytewise_separator_in_range_6() {
+	separator_in_range::<6>();
+}
+
+#[kani::proof]
+#[kani::unwind(12)]
+fn c13_bytewise_separator_in_range_9() {
+	separator_in_range::<9>();
+}
+
+#[kani::proof]
+#[kani::unwind(19)]
+fn c13_bytewise_separator_in_range_16() {
+	separator_in_range::<16>();
+}
+
 fn successor_ge<const N: usize>() {
 	let (k, lk) = any_key::<N>();
 	let k = &k[..lk];
@@ -68,6 +86,12 @@ fn c13_bytewise_successor_ge_3() {
 #[kani::unwind(7)]
 fn c13_bytewise_successor_ge_4() {
 	successor_ge::<4>();
+}
+
+#[kani::proof]
+#[kani::unwind(8)]
+fn c13_bytewise_successor_ge_5() {
+	successor_ge::<5>();
 }
 
 /// encoded internal key in a fixed array: user key (<= 2 bytes) || trailer (seq << 8 | kind, BE) || timestamp (BE)
